@@ -54,6 +54,37 @@ UGet(c) == LET d == IF c.inb # <<>> \/ c.nout = 0 THEN UDuplex(c) ELSE c
 UCompact(c) == LET d == IF c.inb # <<>> THEN UDuplex(c) ELSE c IN [d EXCEPT !.nout = 0]
 UAll(c) == c.u \cup UNION {c.inb[i] : i \in 1..Len(c.inb)}
 
+\* ---- the FRI reduction strategy as a statement parameter -----------------------
+\* A strategy VALUE is  [v |-> "fixed",   a |-> <<arity bits ...>>]
+\*                    | [v |-> "cab",     a |-> <<arity_bits, final_poly_bits>>]
+\*                    | [v |-> "minsize", a |-> <<k>>]          k = -1 stands for None.
+\* Property level: the component fri.reduction_strategy has one atom for the variant and one per
+\* parameter (StratParamCount): altering ANY parameter alters the statement.  What the code absorbs
+\* is Encode(s) (reduction_strategies.rs::serialize); the encoding must give every parameter its own
+\* element (EncodeComplete) and be injective on strategy values (EncodeInjective).
+\* `mutant` = "drops_final_bits" is the encoding <<1, arity_bits>> for ConstantArityBits (canary).
+\* Named deviation found while writing this: the code encodes MinSize(None) as <<2, 0>>, which is
+\* also the encoding of MinSize(Some(0)) (KnownCollision); None really means "max arity 2^4".
+\* Some(0) is therefore excluded from SmallStrategies and reported by the check.
+StratParamCount(v, narity) == 1 + (IF v = "fixed" THEN narity ELSE IF v = "cab" THEN 2 ELSE 1)
+Encode(s, mutant) ==
+  IF s.v = "fixed" THEN <<0>> \o s.a
+  ELSE IF s.v = "cab" THEN (IF mutant = "drops_final_bits" THEN <<1, s.a[1]>> ELSE <<1, s.a[1], s.a[2]>>)
+  ELSE <<2, IF s.a[1] = -1 THEN 0 ELSE s.a[1]>>
+EncodeLen(v, narity, mutant) ==
+  IF v = "fixed" THEN 1 + narity ELSE IF v = "cab" THEN (IF mutant = "drops_final_bits" THEN 2 ELSE 3) ELSE 2
+SmallSeqs(S, n) == UNION {[1..k -> S] : k \in 0..n}
+SmallStrategies ==
+  {[v |-> "fixed", a |-> x] : x \in SmallSeqs(0..2, 3)}
+  \cup {[v |-> "cab", a |-> <<x, y>>] : x \in 0..3, y \in 0..3}
+  \cup {[v |-> "minsize", a |-> <<k>>] : k \in {-1, 1, 2, 3}}
+EncodeInjective(mutant) == \A s1 \in SmallStrategies, s2 \in SmallStrategies :
+                              Encode(s1, mutant) = Encode(s2, mutant) => s1 = s2
+EncodeComplete(mutant) == \A s \in SmallStrategies :
+                             /\ Len(Encode(s, mutant)) = StratParamCount(s.v, Len(s.a))
+                             /\ Len(Encode(s, mutant)) = EncodeLen(s.v, Len(s.a), mutant)
+KnownCollision == Encode([v |-> "minsize", a |-> <<-1>>], "none") = Encode([v |-> "minsize", a |-> <<0>>], "none")
+
 \* ---- programs ------------------------------------------------------------
 Obs(class, n) == [k |-> "O", class |-> class, n |-> n, own |-> TRUE, extra |-> {}, full |-> FALSE]
 ObsDerived(class, n, own, extra, full) ==
